@@ -208,6 +208,7 @@ pub fn execute(p: &Program, prefix: &[usize], horizon: usize, on_decision: Optio
                     }
                     _ => apply_op(&store2, &tables, op),
                 };
+                crate::util::epoch_pump();
                 let ts = sched::take_thread_timestamp();
                 let response = stamp2.fetch_add(1, Ordering::SeqCst);
                 let log_response = sess2.log_len();
